@@ -236,9 +236,16 @@ def r2(idx, rep):
             bad.append(f"copy: {f} <- {ckeys.get(f)}")
     rep.check(not bad and len(fields) == 8, "R2", f"{ci.file}::LineMonitor dump/load/copy agree", "; ".join(bad) or f"{len(fields)} fields", ci.file)
     # the cached monitor is the one dumped: json via lm.dump / lm.load
-    src_w = unparse(fw.node)
-    src_r = unparse(fr.node)
-    rep.check("lm.dump()" in src_w and "lm.load(json)" in src_r, "R2", f"{fw.file}::line monitor cache uses dump/load", "", K.where(fw, fw.node))
+    wrote = {}
+    _, ps = K.sym_result(idx, "FileCacher", "_cache_lines_and_headers", args={"__pos__": ["f.csv", Obj("lm"), ["a"]]},
+                         handlers={"lm.dump": lambda i, c, r, a, k: "DUMP", "self.cache.cache_text": lambda i, c, r, a, k: wrote.__setitem__(a[1], a[2]),
+                                   "io.StringIO": lambda i, c, r, a, k: io.StringIO(), "csv.writer": lambda i, c, r, a, k: csv.writer(*a, **k)})
+    loaded = []
+    _, ps2 = K.sym_result(idx, "FileCacher", "_cached_lines_and_headers", args={"filename": "f.csv"},
+                          handlers={"LineMonitor": lambda i, c, r, a, k: Obj("LM"), "LM.load": lambda i, c, r, a, k: loaded.append(a[0]),
+                                    "self.cache.cached_text": lambda i, c, r, a, k: {"json": "DUMP", "csv": ["a"]}[a[1]]})
+    okl = wrote.get("json") == "DUMP" and loaded == ["DUMP"] and len(ps2) == 1 and ps2[0].result == ("return", (Obj("LM"), ["a"]))
+    rep.check(okl, "R2", f"{fw.file}::line monitor cache uses dump/load", f"wrote {wrote.get('json')!r}, loaded {loaded}, returned {ps2[0].result if ps2 else None}", K.where(fw, fw.node))
 
 
 def r4(idx, rep):
@@ -260,12 +267,20 @@ def r4(idx, rep):
                 bad = bad or f"managed: line_monitor {lm}, headers {hd}"
     rep.check(bad is None, "R4", f"{fi.file}::CsvPath.get_total_lines_and_headers sources", bad or "", K.where(fi, fi.node))
     # the cacher's cold path is the same LineCounter
-    ff = idx.method("FileCacher", "_find_lines_and_headers")
-    src = unparse(ff.node)
-    rep.check("LineCounter(" in src and "get_lines_and_headers(filename)" in src, "R4", f"{ff.file}::FileCacher cold path uses LineCounter", "", K.where(ff, ff.node))
-    # the cold path result is what is cached (no second computation)
-    rep.check("self._cache_lines_and_headers(filename, lm, headers)" in src and "self.pathed_lines_and_headers[filename] = (lm, headers)" in src, "R4",
-              f"{ff.file}::FileCacher caches what it returns", "", K.where(ff, ff.node))
+    ev = []
+    ff, ps = K.sym_result(idx, "FileCacher", "_find_lines_and_headers", args={"filename": "f.csv"}, store={"self.pathed_lines_and_headers": {}},
+                          handlers={"self._cached_lines_and_headers": lambda i, c, r, a, k: (None, None), "LineCounter": lambda i, c, r, a, k: Obj("lc"),
+                                    "lc.get_lines_and_headers": lambda i, c, r, a, k: (ev.append(("count", a[0])), (Obj("LM"), ["h"]))[1],
+                                    "self._cache_lines_and_headers": lambda i, c, r, a, k: ev.append(("cache", a[0], a[1], a[2]))})
+    held = ps[0].final_store.get("self.pathed_lines_and_headers", {}).get("f.csv") if len(ps) == 1 else None
+    rep.check(ev == [("count", "f.csv"), ("cache", "f.csv", Obj("LM"), ["h"])] and held == (Obj("LM"), ["h"]), "R4",
+              f"{ff.file}::FileCacher cold path counts with LineCounter, caches and keeps exactly that", f"{ev}, kept {held}", K.where(ff, ff.node))
+    ev2 = []
+    _, ps = K.sym_result(idx, "FileCacher", "_find_lines_and_headers", args={"filename": "f.csv"}, store={"self.pathed_lines_and_headers": {}},
+                         handlers={"self._cached_lines_and_headers": lambda i, c, r, a, k: (Obj("WARM"), ["w"]), "LineCounter": lambda i, c, r, a, k: (ev2.append("count"), Obj("lc"))[1],
+                                   "self._cache_lines_and_headers": lambda i, c, r, a, k: ev2.append("cache")})
+    held = ps[0].final_store.get("self.pathed_lines_and_headers", {}).get("f.csv") if len(ps) == 1 else None
+    rep.check(ev2 == [] and held == (Obj("WARM"), ["w"]), "R4", f"{ff.file}::FileCacher warm path uses the cached pair", f"{ev2}, kept {held}", K.where(ff, ff.node))
 
 
 def r5(idx, rep):
